@@ -78,6 +78,17 @@ class Prop(PropBase):
         'gated dict subclass, so real lock contention is never exercised',
         'the instruction list of Cache.get / Cache.clear in Model/Cache.v is hand-written; it is tied to '
         '/repo by replaying model schedules step for step on real threads and comparing complete event logs',
+        'Tie B (tools/py2coq_c13.py -> Gen/GenC13.v, proofs in Proofs/GenC13Proofs.v): the control-flow '
+        'tables of Cache.get / Cache.clear and the key expression of Loader.get_pipeline are regenerated '
+        'from the current source on every build and proved to be the model. The translator assumes: '
+        'docstrings, logger.* calls and `pass` are dropped as effect-free; the parameters of get are '
+        '(self, key, creator); self._lock / self._cache / config are the lock, the dict and the pypyr '
+        'config; each of config.no_cache, `key in d`, d[key], d[key] = x, d.clear(), lock enter / exit is one '
+        'atomic step and a creator call two (enter, exit) - the granularity of the hand-written '
+        'instruction semantics `nstep` in Model/Cache.v, which is trusted as the meaning of those Python '
+        'statements (incl. `with`: release on normal and on exceptional exit); bisimilar nodes are merged '
+        '(hash-consing) before numbering. add_sys_path, the Cache subclasses and get_pype_loader are NOT '
+        'translated (hand model + correspondence run only)',
         'creators are modelled as: succeed with a fresh object or raise; a creator that re-enters the '
         'same cache (deadlock on the non-reentrant lock) is outside the model',
         'BackoffCache starts with (and clears to) the built-in back-offs: only custom names are replayed '
